@@ -175,3 +175,9 @@ PROPS["C19"] = {
         {"name": "c19-helpers", "pkg": ROOT, "run": "TestVerifC19Helpers", "timeout": {"quick": 600, "thorough": 1800}},
     ],
 }
+PROPS["C20"] = {
+    "level": "exploration",
+    "units": [
+        {"name": "c20-export-restore", "pkg": ROOT, "run": "TestVerifC20", "timeout": {"quick": 1200, "thorough": 3400}},
+    ],
+}
